@@ -404,7 +404,7 @@ def replay(o):
 
 
 INFO = dict(
-    assumptions=A.S_COMMON + [A.A4], trusted_base=A.TRUSTED, min_obligations=60, level="other",
+    assumptions=A.S_COMMON + [A.A4, A.A11, A.A12], trusted_base=A.TRUSTED, min_obligations=60, level="other",
     explanation="C05: Curve.knot_remove / BaseCurve.update / Curve.fit_curve / LeastSquare.spline2spline / func2func executed on concrete rational knot "
                 "vectors with symbolic control points; the explorer forks on 'error > tolerance'. Success path: knot vector == old minus nodes and "
                 "2*max(1,L)*E - R positive semidefinite (exact), R the spec residual form; exactly removable input: only the success path is feasible and "
